@@ -49,7 +49,7 @@ def gen_config(rng, tier, index=0):
     w = rng.choice(["assemble", "assemble", "walk", "call", "call", "pedigree", "awalk"])
     if w == "awalk":
         long = rng.random() < 0.12
-        return {"workload": "awalk", "ploidy": rng.choice([2, 3, 4, 6]), "n_allele": rng.choice([2, 3, 4, 5]),
+        return {"workload": "awalk", "ploidy": rng.choice([1, 2, 3, 4, 6]), "n_allele": rng.choice([2, 3, 4, 5, 5, 70, 130, 300]),
                 "steps": rng.randint(10500, 14000) if long else rng.randint(2, 40), "chains": rng.choice([1, 2, 3]),
                 "move_rate": rng.choice([0.0005, 0.002]) if long else rng.choice([0.1, 0.5, 0.9]),
                 "threshold": rng.choice([0.0, 0.3, 0.6, 0.9])}
@@ -454,16 +454,27 @@ def check_alleles_trace(ctx, label, trace, chains, ploidy, n_allele, steps, n_ch
         s2 = support_of(k2)
         if not close(sp2, sbest) or not close(tot.get(s2, -1), sbest) or not close(p2, max(groups[s2].values())) or not close(dist.get(k2, -1), p2):
             fail(ctx, "support_mismatch", "%s mode(genotype_support=True) = (%r, %r, %r) is not (most frequent member, its probability, total) of the most probable allele set (total %r)" % (label, list(k2), float(p2), float(sp2), sbest), burn=burn)
-        # G-ordered array
-        arr = post.as_array(n_allele)
-        gens = ref.all_genotypes(n_allele, ploidy)
-        gens = [gens[i] for i in ref.vcf_order(gens)]
-        if len(arr) != len(gens):
-            fail(ctx, "as_array_mismatch", "%s as_array has %d entries for %d genotypes" % (label, len(arr), len(gens)), burn=burn)
-        for i, g in enumerate(gens):
-            if not close(arr[i], dist.get(g, 0.0)):
-                fail(ctx, "as_array_mismatch", "%s as_array[%d] (genotype %r) = %r, empirical probability %r" % (label, i, list(g), float(arr[i]), dist.get(g, 0.0)), burn=burn)
-        ctx.counters.inc("as_array_checked")
+        # G-ordered array (enumerated only while the genotype space is small; large allele sets: sparse check)
+        n_gen = math.comb(n_allele + ploidy - 1, ploidy)
+        if n_gen > 50000:
+            if n_gen <= 5_000_000:
+                arr = post.as_array(n_allele)
+                idx_of = lambda g: sum(math.comb(a + k, k + 1) for k, a in enumerate(g))
+                if len(arr) != n_gen or not close(float(np.sum(arr)), 1.0) or any(not close(arr[idx_of(g)], p) for g, p in dist.items()):
+                    fail(ctx, "as_array_mismatch", "%s as_array over %d genotypes does not hold the empirical probabilities at their VCF indices" % (label, n_gen), burn=burn)
+                ctx.counters.inc("as_array_checked")
+            gens = None
+        else:
+            arr = post.as_array(n_allele)
+            gens = ref.all_genotypes(n_allele, ploidy)
+        if gens is not None:
+            gens = [gens[i] for i in ref.vcf_order(gens)]
+            if len(arr) != len(gens):
+                fail(ctx, "as_array_mismatch", "%s as_array has %d entries for %d genotypes" % (label, len(arr), len(gens)), burn=burn)
+            for i, g in enumerate(gens):
+                if not close(arr[i], dist.get(g, 0.0)):
+                    fail(ctx, "as_array_mismatch", "%s as_array[%d] (genotype %r) = %r, empirical probability %r" % (label, i, list(g), float(arr[i]), dist.get(g, 0.0)), burn=burn)
+            ctx.counters.inc("as_array_checked")
         # frequencies, counts, occurrence
         fr, cn, oc = tb.posterior_frequencies()
         for a in range(n_allele):
